@@ -274,6 +274,35 @@ Qed.
 Lemma paren_wf e : ops_ok e -> wf 0 (paren e).
 Proof. intros Ho. eapply wf_weaken; [|apply paren_wf_level; exact Ho]. lia. Qed.
 
+Notation reparen := (reparen op K lvl plvl).
+Lemma strip_reparen x e : strip (reparen x e) = strip e.
+Proof.
+  induction e as [n|o a IHa b IHb|o e IHe|e IHe]; simpl; auto.
+  - rewrite !strip_par_if, IHa, IHb. reflexivity.
+  - rewrite strip_par_if, IHe. reflexivity.
+Qed.
+Lemma reparen_wf_level x e : ops_ok e -> wf (level (reparen x e)) (reparen x e).
+Proof.
+  induction e as [n|o a IHa b IHb|o e IHe|e IHe]; simpl; intros Ho.
+  - split; auto.
+  - destruct Ho as [Hm [Hoa Hob]]. split; [lia|]. split; [exact Hm|]. split.
+    + destruct (level (reparen x a) <? lvl o) eqn:E; simpl.
+      * split; [lia|]. eapply wf_weaken; [|apply IHa; exact Hoa]. lia.
+      * apply Nat.ltb_ge in E. eapply wf_weaken; [|apply IHa; exact Hoa]. exact E.
+    + destruct (level (reparen x b) <=? lvl o) eqn:E; simpl.
+      * split; [lia|]. eapply wf_weaken; [|apply IHb; exact Hob]. lia.
+      * apply Nat.leb_gt in E. eapply wf_weaken; [|apply IHb; exact Hob]. lia.
+  - destruct Ho as [Hm Hoe]. split; [lia|]. split; [exact Hm|].
+    destruct (level (reparen x e) <? plvl o) eqn:E; simpl.
+    + split; [lia|]. eapply wf_weaken; [|apply IHe; exact Hoe]. lia.
+    + apply Nat.ltb_ge in E. destruct (x (reparen x e)); simpl.
+      * split; [lia|]. eapply wf_weaken; [|apply IHe; exact Hoe]. lia.
+      * eapply wf_weaken; [|apply IHe; exact Hoe]. exact E.
+  - split; [lia|]. eapply wf_weaken; [|apply IHe; exact Ho]. lia.
+Qed.
+Lemma reparen_wf x e : ops_ok e -> wf 0 (reparen x e).
+Proof. intros Ho. eapply wf_weaken; [|apply reparen_wf_level; exact Ho]. lia. Qed.
+
 Lemma unflatten_flatten (e : expr) : unflatten op (flatten op lvl e) = e.
 Proof.
   induction e as [n|o a IHa b IHb|o e IHe|e IHe]; simpl; auto.
@@ -318,4 +347,16 @@ Proof.
     exists f. rewrite app_nil_r in Hf. exact Hf.
   - unfold paren_with. rewrite strip_paren. apply strip_no_par. exact Hn.
   - apply unflatten_flatten.
+Qed.
+
+Theorem rerender_with (L : list lv) (x : expr str -> bool) (e : expr str) :
+  ops_ok str (length L) (lvl_of L) (plvl_of L) e ->
+  (exists f, parse_with L f 0 (toks str (reparen_with L x e)) = Some (reparen_with L x e, []))
+  /\ Ladder.strip str (reparen_with L x e) = Ladder.strip str e.
+Proof.
+  intros Ho. split.
+  - destruct (parse_toks str (length L) (lvl_of L) (plvl_of L) (isbin_of L) (lvl_of_bin L) (plvl_of_pre L)
+                (reparen_with L x e) [] (reparen_wf _ _ _ _ x e Ho) I) as [f Hf].
+    exists f. rewrite app_nil_r in Hf. exact Hf.
+  - apply strip_reparen.
 Qed.
